@@ -19,6 +19,7 @@ import (
 	"sync/atomic"
 	"time"
 
+	"github.com/benbjohnson/clock"
 	"github.com/ipfs/go-datastore"
 	dssync "github.com/ipfs/go-datastore/sync"
 	pubsub "github.com/libp2p/go-libp2p-pubsub"
@@ -193,9 +194,31 @@ type realManager struct {
 	confirmed  map[string]bool
 	// marked reads of pool state made without the pool's mutex
 	unlockedReads []string
+	// every pool runs on this mock clock; cool-downs elapse only in an "expire" step
+	clk      *clock.Mock
+	clocked  map[any]bool
+	objCount map[any]map[string]int // hook events per pool / queue object
+	// a blocked Peer() call (request_wait)
+	waiter *blockedPeer
+}
+
+type blockedPeer struct {
+	hash   string
+	cancel context.CancelFunc
+	res    chan peerResult
+	got    *peerResult
+	mark   int // "next.wait" events of the hash pool when the call was seen blocked
+	pool   any
+}
+
+type peerResult struct {
+	pid  peer.ID
+	done peers.DoneFunc
+	err  error
 }
 
 const poolTimeout = time.Hour
+const cooldownTime = time.Hour // on the mock clock
 
 var rawHook atomic.Pointer[func(obj any, ev string, id peer.ID)]
 
@@ -223,14 +246,15 @@ func newRealManager(peerNames, hashes []string, blacklisting bool) (*realManager
 		return nil, err
 	}
 	hs := newHeaderSub()
-	params := peers.Parameters{PoolValidationTimeout: poolTimeout, PeerCooldown: time.Hour, GcInterval: time.Hour, EnableBlackListing: blacklisting}
+	params := peers.Parameters{PoolValidationTimeout: poolTimeout, PeerCooldown: cooldownTime, GcInterval: time.Hour, EnableBlackListing: blacklisting}
 	m, err := peers.NewManager(params, hst, gater, "verif", peers.WithShrexSubPools(ss, hs))
 	if err != nil {
 		cancel()
 		return nil, err
 	}
 	rm := &realManager{m: m, host: hst, hs: hs, cancel: cancel, peers: peerNames, hashes: hashes, bl: blacklisting,
-		dones: map[MReq]peers.DoneFunc{}, counters: map[string]int{}, discovered: map[string]bool{}, confirmed: map[string]bool{}}
+		dones: map[MReq]peers.DoneFunc{}, counters: map[string]int{}, discovered: map[string]bool{}, confirmed: map[string]bool{},
+		clk: clock.NewMock(), clocked: map[any]bool{}, objCount: map[any]map[string]int{}}
 	rm.ccond = sync.NewCond(&rm.cmu)
 	rm.nodesObj = m.VerifNodes().Raw()
 	// Besides counting the node pool's events (needed to wait for the asynchronous disconnect handling) the hook
@@ -256,16 +280,23 @@ func newRealManager(peerNames, hashes []string, blacklisting bool) (*realManager
 				rm.unlockedReads = append(rm.unlockedReads, ev)
 			}
 		}
+		oc := rm.objCount[obj]
+		if oc == nil {
+			oc = map[string]int{}
+			rm.objCount[obj] = oc
+		}
+		oc[ev]++
 		if obj == rm.nodesObj {
 			rm.counters[ev]++
-			rm.ccond.Broadcast()
 		}
+		rm.ccond.Broadcast()
 	}
 	rawHook.Store(&hook)
 	if err := m.Start(ctx); err != nil {
 		cancel()
 		return nil, err
 	}
+	rm.setClocks()
 	rm.emitter, err = hst.EventBus().Emitter(new(event.EvtPeerConnectednessChanged))
 	if err != nil {
 		cancel()
@@ -274,7 +305,80 @@ func newRealManager(peerNames, hashes []string, blacklisting bool) (*realManager
 	return rm, nil
 }
 
+// setClocks puts every pool the manager has (created since the last call) on the mock clock.
+func (rm *realManager) setClocks() {
+	all := []peers.VerifPool{rm.m.VerifNodes()}
+	for _, p := range rm.m.VerifPools() {
+		all = append(all, p.Pool)
+	}
+	for _, vp := range all {
+		if !rm.clocked[vp.Raw()] {
+			vp.SetClock(rm.clk)
+			rm.clocked[vp.Raw()] = true
+		}
+	}
+}
+
+func (rm *realManager) objCounter(obj any, ev string) int {
+	rm.cmu.Lock()
+	defer rm.cmu.Unlock()
+	return rm.objCount[obj][ev]
+}
+
+func (rm *realManager) waitObjCounter(obj any, ev string, above int, d time.Duration) bool {
+	expired := false
+	tm := time.AfterFunc(d, func() {
+		rm.cmu.Lock()
+		expired = true
+		rm.ccond.Broadcast()
+		rm.cmu.Unlock()
+	})
+	defer tm.Stop()
+	rm.cmu.Lock()
+	defer rm.cmu.Unlock()
+	for rm.objCount[obj][ev] <= above && !expired {
+		rm.ccond.Wait()
+	}
+	return rm.objCount[obj][ev] > above
+}
+
+// pollWaiter takes the result of the blocked Peer() call if there is one, and applies the monitors to it.
+func (rm *realManager) pollWaiter(rep *vh.Report, replayObj any, wait time.Duration) *peerResult {
+	w := rm.waiter
+	if w == nil {
+		return nil
+	}
+	if w.got == nil {
+		if wait <= 0 {
+			select {
+			case r := <-w.res:
+				w.got = &r
+			default:
+				return nil
+			}
+		} else {
+			select {
+			case r := <-w.res:
+				w.got = &r
+			case <-time.After(wait):
+				return nil
+			}
+		}
+		if w.got.err == nil {
+			if rm.bl && rm.m.VerifBlacklistedPeer(w.got.pid) {
+				rep.Violate("C17/manager/blacklisted-peer-offered",
+					fmt.Sprintf("a blocked Manager.Peer(%s) was woken and returned %q although the peer is black-listed (blocked in the connection gater) and black-listing is enabled",
+						w.hash, string(w.got.pid)), replayObj)
+			}
+		}
+	}
+	return w.got
+}
+
 func (rm *realManager) close() {
+	if rm.waiter != nil {
+		rm.waiter.cancel()
+	}
 	rawHook.Store(nil)
 	sctx, c := context.WithTimeout(context.Background(), 10*time.Second)
 	_ = rm.m.Stop(sctx)
@@ -553,6 +657,93 @@ func (rm *realManager) exec(rep *vh.Report, a MMAct, pre MMState, replayObj any)
 			return "", nil, nil, fmt.Errorf("age: no pool %s", h)
 		}
 		return `"-"`, nil, nil, nil
+	case "expire":
+		// every pool with a non-empty cool-down queue has a timer; advance the clock by the cool-down and wait for
+		// each of those timers' releaseExpired to finish
+		type tq struct {
+			q any
+			n int
+		}
+		var due []tq
+		all := []peers.VerifPool{rm.m.VerifNodes()}
+		for _, p := range rm.m.VerifPools() {
+			all = append(all, p.Pool)
+		}
+		for _, vp := range all {
+			if len(vp.Queue()) > 0 {
+				due = append(due, tq{vp.RawQueue(), rm.objCounter(vp.RawQueue(), "releaseExpired.exit")})
+			}
+		}
+		rm.clk.Add(cooldownTime)
+		for _, d := range due {
+			if !rm.waitObjCounter(d.q, "releaseExpired.exit", d.n, watchdog) {
+				return "", nil, nil, fmt.Errorf("expire: a cool-down queue did not release its entries within %s", watchdog)
+			}
+		}
+		return `"-"`, nil, nil, nil
+	case "request_wait":
+		var arg struct {
+			Hash   string `json:"hash"`
+			Height uint64 `json:"height"`
+		}
+		_ = json.Unmarshal(a.Arg, &arg)
+		if rm.waiter != nil {
+			return "", nil, nil, fmt.Errorf("request_wait: a call is blocked already")
+		}
+		for p, s := range pre.Pools[arg.Hash].St {
+			if s != "none" {
+				rm.confirmed[p] = true
+			}
+		}
+		wctx, cancel := context.WithCancel(ctx)
+		w := &blockedPeer{hash: arg.Hash, cancel: cancel, res: make(chan peerResult, 1)}
+		rm.waiter = w
+		nodesMark := rm.objCounter(rm.nodesObj, "next.wait")
+		go func() {
+			var r peerResult
+			if panicked, val := vh.Recover(func() { r.pid, r.done, r.err = rm.m.Peer(wctx, hashBytes(arg.Hash), arg.Height) }); panicked {
+				r.err = fmt.Errorf("panic: %s", val)
+			}
+			w.res <- r
+		}()
+		// blocked = both next() goroutines (hash pool, node pool) have reached their wait point
+		if !rm.waitObjCounter(rm.nodesObj, "next.wait", nodesMark, watchdog) {
+			if rm.pollWaiter(rep, replayObj, 0) != nil {
+				return `"returned"`, nil, nil, nil
+			}
+			return "", nil, nil, fmt.Errorf("request_wait: the call neither returned nor blocked within %s", watchdog)
+		}
+		if p, ok := rm.m.VerifPools()[hashBytes(arg.Hash).String()]; ok {
+			w.pool = p.Pool.Raw()
+			deadline := time.Now().Add(watchdog)
+			for rm.objCounter(w.pool, "next.wait") == 0 && time.Now().Before(deadline) {
+				time.Sleep(time.Millisecond)
+			}
+			w.mark = rm.objCounter(w.pool, "next.wait")
+		}
+		return `"-"`, nil, nil, nil
+	case "wake":
+		w := rm.waiter
+		if w == nil {
+			return "", nil, nil, fmt.Errorf("wake: no blocked call")
+		}
+		// the woken call either returns or, after dropping an unreachable peer, blocks again (its new next()
+		// goroutine on the hash pool reaches the wait point)
+		deadline := time.Now().Add(watchdog)
+		for time.Now().Before(deadline) {
+			if r := rm.pollWaiter(rep, replayObj, 2*time.Millisecond); r != nil {
+				rm.waiter = nil
+				if r.err != nil {
+					return "", nil, nil, fmt.Errorf("wake: blocked call ended with %v", r.err)
+				}
+				return fmt.Sprintf("%q", string(r.pid)), &MReq{Peer: string(r.pid), Hash: w.hash}, r.done, nil
+			}
+			if w.pool != nil && rm.objCounter(w.pool, "next.wait") > w.mark {
+				w.mark = rm.objCounter(w.pool, "next.wait")
+				return `"-"`, nil, nil, nil
+			}
+		}
+		return "", nil, nil, fmt.Errorf("wake: the blocked call neither returned nor blocked again within %s", watchdog)
 	case "gc":
 		var bl []peer.ID
 		rm.call(rep, "GC", replayObj, func() { bl = rm.m.VerifGCOnce() })
@@ -702,6 +893,7 @@ func managerWalk(rep *vh.Report, mp *ManagerPlan, rng *rand.Rand, covered map[[2
 		if err != nil {
 			return fmt.Sprintf("%s: %v", a.Act, err)
 		}
+		rm.setClocks()
 		post := rm.snapshot()
 		rm.monitorNodes(rep, post, replayObj)
 		rep.Count("manager_steps", 1)
@@ -763,6 +955,10 @@ func runManagerWitness(rep *vh.Report, sc MScenario) {
 			if err != nil {
 				out["diverged"] = fmt.Sprintf("step %d %s: %v", i, st.A.Act, err)
 				return
+			}
+			rm.setClocks()
+			if st.A.Act != "wake" {
+				rm.pollWaiter(rep, replayObj, 0) // a blocked call that returns at any time is judged by the monitors
 			}
 			if preq != nil {
 				rm.dones[*preq] = pdone
@@ -852,6 +1048,7 @@ func runManagerWalks(rep *vh.Report, tp *MTracePlan) {
 					rep.Inconclusivef("manager random walk %d step %d %s: %v", w, step, a.Act, err)
 					return
 				}
+				rm.setClocks()
 				if preq != nil {
 					rm.dones[*preq] = pdone
 				}
@@ -892,7 +1089,20 @@ func randomManagerAction(rng *rand.Rand, tp *MTracePlan, rm *realManager, pre MM
 			return MMAct{Act: "discovery", Arg: mustJSON(map[string]any{"peer": pick(tp.Peers), "added": rng.Intn(3) > 0})}
 		case k < 87:
 			return MMAct{Act: "disconnect", Arg: mustJSON(pick(tp.Peers))}
-		case k < 93:
+		case k < 90:
+			cooling := false
+			for _, st := range pre.Nodes {
+				cooling = cooling || st == "cooldown"
+			}
+			for _, p := range pre.Pools {
+				for _, st := range p.St {
+					cooling = cooling || st == "cooldown"
+				}
+			}
+			if cooling {
+				return MMAct{Act: "expire", Arg: mustJSON(none)}
+			}
+		case k < 94:
 			h := pick(tp.Hashes)
 			if p := pre.Pools[h]; p.Exists && !p.Stale {
 				return MMAct{Act: "age", Arg: mustJSON(h)}
